@@ -7,6 +7,8 @@ From SyncFut Require Import Model PropsC08.
 Definition gen_sfacts : sfacts := {| f_state_dropped_first := fact_syncfuture_field_order |}.
 (* the theorems about clean cancellation are stated for [code_facts]: that IS what the source says now *)
 Lemma cl_syncfuture_field_order : gen_sfacts = code_facts. Proof. reflexivity. Qed.
+(* the model drops the fields in declaration order and nothing else: SyncFuture has no Drop impl that would act before them *)
+Lemma cl_syncfuture_no_drop_impl : fact_syncfuture_no_drop_impl = true. Proof. reflexivity. Qed.
 Lemma cl_future_sync_slot_job : fact_future_sync_slot_job = true. Proof. reflexivity. Qed.
 Lemma cl_signal_sets_then_takes_waker : fact_signal_sets_then_takes_waker = true. Proof. reflexivity. Qed.
 Lemma cl_signaller_drop_cancels : fact_signaller_drop_cancels = true. Proof. reflexivity. Qed.
